@@ -10,7 +10,7 @@ const SPEC: Spec = Spec {
         "fixed base set (48 values incl. 2- and 3-digit patterns, both signs); exponents bounded (every e up to the bound, hence every trailing-zero / set-bit pattern below it)",
         "BigUint exponents beyond u128 are exercised only with bases 0 and +-1 (anything else must exhaust memory: out of scope)",
     ],
-    bounds_quick: "48 bases x every e in 0..=200; bases 0,+-1,+-2 x every e < 4096; BigUint exponents at 2^64-1, 2^64, 2^128-1, 2^128, 2^200 with bases 0,+-1",
+    bounds_quick: "48 bases x every e in 0..=200; bases 0,+-1,+-2 x every e < 4096; 11 sparse / long bases (2^k+1 for k in {320,1024,2048,4160}, 40- and 70-digit values) x every e up to 24..3; BigUint exponents at 2^64-1, 2^64, 2^128-1, 2^128, 2^200 with bases 0,+-1",
     bounds_thorough: "48 bases x every e in 0..=600 (3-digit bases up to e=300); bases 0,+-1,+-2 x every e < 16384; edge exponents",
     hang_secs: 60,
     probes: None,
@@ -125,6 +125,35 @@ fn body(ctx: &mut Ctx) {
                 pow_case(ctx, b, &x, &u, e, &p);
             }
             ctx.sample(|| format!("base {} x every exponent 0..={} x 7 exponent types x 4 forms", b.to_hex(), emax));
+        }
+    }
+    // E3: sparse and long bases (the squarings run through Karatsuba / Toom-3 on operands with zero digits inside)
+    if ctx.space("E3") {
+        let mut cases: Vec<(Int, u64)> = Vec::new();
+        let one = Nat::one();
+        for (k, emax) in [(320u64, 24u64), (1024, 12), (2048, 9), (4160, 5)] {
+            let b = one.shl(k).add(&one);
+            cases.push((Int::from_nat(b.clone()), emax));
+            cases.push((Int::new(true, b.add(&one.shl(k / 2 + 1))), emax));
+        }
+        cases.push((Int::from_nat(one.shl(4160).add(&one.shl(1088)).add(&one.shl(1024)).add(&one)), 3));
+        cases.push((Int::from_nat(Nat::from_digits(&alpha::lcg_digits(40, 3))), 9));
+        cases.push((Int::new(true, Nat::from_digits(&vec![alpha::M; 70])), 7));
+        for (i, (b, emax)) in cases.iter().enumerate() {
+            if !ctx.mine(i as u64) {
+                continue;
+            }
+            let x = bi_int(b);
+            let u = if b.neg { None } else { Some(bu_nat(&b.mag)) };
+            let mut p = Int::from_i64(1);
+            for e in 0..=*emax {
+                if e > 0 {
+                    p = p.mul(b);
+                }
+                ctx.inner(e);
+                pow_case(ctx, b, &x, &u, e, &p);
+            }
+            ctx.sample(|| format!("base of {} bits (sparse / dense long) x every exponent 0..={}", b.mag.bits(), emax));
         }
     }
     if ctx.space("E2") && ctx.mine(0) {
